@@ -21,8 +21,20 @@
    - the enumeration is the full product accepted by the command line, without repetition, plus the web tool;
    - the Gallina model of the dispatchers (Merge/Strategies.v) follows the generated if/elif chains arm by arm and, on
      builders satisfying the decision invariant, never returns an error except tryresolve's deliberate RuntimeError. *)
-From Coq Require Import List.
-From NB Require Import Base.Json Base.Res Merge.StrategyBase Gen.Strategies Merge.StrategyTable Merge.StrategyTableProofs.
+From Coq Require Import List String.
+From NB Require Import Base.Json.
+From NB Require Import Base.Res.
+From NB Require Import Diff.DiffFormat.
+From NB Require Import Diff.Codec.
+From NB Require Import Merge.SortKey.
+From NB Require Import Merge.Decisions.
+From NB Require Import Merge.MergeGeneric.
+From NB Require Import Merge.StrategyBase.
+From NB Require Import Gen.Strategies.
+From NB Require Import Merge.StrategyTable.
+From NB Require Import Merge.StrategyTableProofs.
+From NB Require Import Merge.Strategies.
+From NB Require Import Merge.StrategiesProofs.
 
 Theorem strategy_dispatch_total :
   forall c, In c all_configs -> forall p s, In (p, Some s) (cfg_table c) -> entry_spec p s.
@@ -44,3 +56,42 @@ Theorem configurations_enumerated :
   noargs_is_default = true.
 Proof. exact enumeration_complete. Qed.
 Print Assumptions configurations_enumerated.
+
+(* the dispatchers of the merge-core model are the generated if/elif chains, interpreted (source tie by proof) *)
+Theorem tryresolve_is_source_chain :
+  forall cs B p l r st, b_tryresolve cs B p l r st = tryresolve_src cs B p l r st.
+Proof. exact tryresolve_follows_source. Qed.
+Print Assumptions tryresolve_is_source_chain.
+
+Theorem resolve_strategy_generic_is_source_chain :
+  forall B st, resolve_strategy_generic B st = generic_src B st.
+Proof. exact generic_follows_source. Qed.
+Print Assumptions resolve_strategy_generic_is_source_chain.
+
+Theorem resolve_conflicted_strings_is_source_chain :
+  forall B st, resolve_conflicted_strings B st = strings_src B st.
+Proof. exact strings_follows_source. Qed.
+Print Assumptions resolve_conflicted_strings_is_source_chain.
+
+(* merge_total, dispatch layer: registering a genuine two-sided conflict never fails, whatever the strategy string,
+   except for the deliberate "fail" *)
+Theorem conflict_registration_total :
+  forall cs B p l r s, truthy l = true -> truthy r = true -> conflict_args_eqb cs l r = false -> s <> Some (of_ascii "fail") ->
+  exists B', b_conflict cs B p l r s = Ok B'.
+Proof. exact conflict_total. Qed.
+Print Assumptions conflict_registration_total.
+
+Theorem fail_strategy_raises :
+  forall cs B p l r, truthy l = true -> truthy r = true -> conflict_args_eqb cs l r = false ->
+  b_tryresolve cs B p l r (Some (of_ascii "fail")) = Err RuntimeError.
+Proof. exact tryresolve_fail_raises. Qed.
+Print Assumptions fail_strategy_raises.
+
+(* ---- BLOCK TO SWAP WHEN THE KNOWN FINDINGS OF C03 ARE REPAIRED -------------------------------------------------------
+   The full goal merge_total is refuted on the implementation by concrete inputs (known_findings.d/C03.json; every run
+   replays them from the built-in corpus of harness/c03_common.py).  The inline-family resolvers
+   (resolve_strategy_inline_attachments / _inline_recurse / clear-all via collect_diffs / create_parent_deletion_counter_diff)
+   are not modelled in Gallina yet, so there is no `merge_total_refuted` theorem in Coq: the refutation lives in the check.
+   When they are modelled, `merge_total_refuted` (witnesses = the corpus triples) goes here and is replaced by
+   `merge_total` once the fixes of notes/C03-fix-*.diff are applied.
+   --------------------------------------------------------------------------------------------------------------------- *)
